@@ -1,7 +1,7 @@
 (* C04 — SML print -> parse round trip (partial: the literal level is proved,
    the token and character levels are decided by correspondence and monitors). *)
 From Secs Require Import Ast FloatProofs Fill Msg WireSpec WireLemmas WireValues HeaderProofs WireEnc WireDec MsgProofs AstProofs FillProofs FillCompose.
-From Secs Require Import Lexer Parser SmlNumbers SmlProofs TokenProofs.
+From Secs Require Import PrintProofs Lexer Parser SmlNumbers SmlProofs LexProofs ParseProofs OffsetProofs TokenProofs LexPrinted.
 Open Scope Z_scope.
 
 (* integers are printed in decimal (FormatInt); scanning the printed form gives the value back *)
@@ -71,9 +71,29 @@ Theorem C04_item_tokens : forall floats t st rest,
 Proof. exact item_parses_back. Qed.
 Print Assumptions C04_item_tokens.
 
-(* C04_print_parse (missing): parse (print_msg m) = ([m], [], []) for every
-   canonical message — the lexing of the printed layout into those tokens, and
-   float items, ASCII items and ellipses at the token level are not proved; they are
-   decided on the library by the monitors of suite C04 (print -> parse ->
-   compare, and the fixed point of every accepted text) and by the
+(* character level: the text String() prints for such a tree — at any
+   indentation, followed by any text — is read by the lexer into tokens
+   (`lexes`: for every amount of fuel left) from which the parser rebuilds
+   exactly the tree that was printed, reporting nothing and consuming exactly
+   those tokens.  Printer model, lexer model and parser model composed. *)
+Theorem C04_print_lex_parse : forall alnum floats fl level t rest off,
+  printable t -> lexable t ->
+  exists ts, lexes alnum LText (render fl (print_item_at level t) ++ rest) off ts LText rest
+               (off + zlen (render fl (print_item_at level t))) /\
+    forall st more, toks st = ts ++ more -> (forall n, In n (vars t) -> known_name st n = false) ->
+      exists st', parse_item floats (S (length (toks st))) st = (Some t, st') /\ toks st' = more /\ errs st' = errs st.
+Proof. exact print_lex_parse_item. Qed.
+Print Assumptions C04_print_lex_parse.
+
+(* the hypotheses hold of a nested tree with values and variables, whose printed text is pinned too *)
+Example C04_premises :
+  let t := IList [ILeaf KUint 1 [SV 1; SX (B"x"%string)]; IVar (B"v"%string); IList [ILeaf KBool 1 [SV 1; SV 0]; ILeaf KInt 2 [SV (-7)]]] in
+  printable t /\ lexable t.
+Proof. destruct print_lex_parse_example as (H1 & H2 & _). split; assumption. Qed.
+
+(* C04_print_parse (remaining): the message header line, float items (their
+   text is an oracle), ASCII items and ellipses at the token and character
+   levels, and the converse direction (fixed point of accepted texts) are not
+   proved; they are decided on the library by the monitors of suite C04 (print
+   -> parse -> compare, and the fixed point of every accepted text) and by the
    correspondence of printer, lexer and parser with the model. *)
